@@ -4,7 +4,7 @@
 use fbh::gal::*;
 use fbh::mapmodel::*;
 use fbh::prng::Rng;
-use fbh::report::{guarded, Report};
+use fbh::report::{crumb, guarded, Report};
 use fbh::Ctx;
 use quill::tree::mappings::Mappings;
 use quill::tree::names::Namespaces;
@@ -43,6 +43,29 @@ fn impl_read(text: &S) -> Result<Option<Vec<MClass>>, String> {
 	let bytes = text_of(text).into_bytes();
 	guarded(move || {
 		let mut q = empty_q();
+		match quill::enigma_file::read_into(&bytes[..], &mut q) {
+			Ok(()) => { let mut d = vec![]; let m = from_quill(&q, &mut d); assert!(d.is_empty(), "key/info desync after read: {d:?}"); Some(m.classes) }
+			Err(_) => None,
+		}
+	})
+}
+
+/// read_into on raw bytes (possibly not UTF-8), fresh mappings
+fn impl_read_bytes(bytes: &[u8]) -> Result<Option<Vec<MClass>>, String> {
+	let bytes = bytes.to_vec();
+	guarded(move || {
+		let mut q = empty_q();
+		match quill::enigma_file::read_into(&bytes[..], &mut q) {
+			Ok(()) => { let mut d = vec![]; let m = from_quill(&q, &mut d); assert!(d.is_empty(), "key/info desync after read: {d:?}"); Some(m.classes) }
+			Err(_) => None,
+		}
+	})
+}
+/// read_into on mappings that already hold `acc`; the classes afterwards, in IndexMap order
+fn impl_read_into(acc: &MMappings, text: &S) -> Result<Option<Vec<MClass>>, String> {
+	let mut q: Q = to_quill(acc).map_err(|e| format!("not buildable: {e}"))?;
+	let bytes = text_of(text).into_bytes();
+	guarded(move || {
 		match quill::enigma_file::read_into(&bytes[..], &mut q) {
 			Ok(()) => { let mut d = vec![]; let m = from_quill(&q, &mut d); assert!(d.is_empty(), "key/info desync after read: {d:?}"); Some(m.classes) }
 			Err(_) => None,
@@ -108,6 +131,152 @@ fn impl_read_dir(files: &[(S, S)], sc: &mut Scratch) -> Result<Option<Vec<MClass
 	});
 	let _ = std::fs::remove_dir_all(&d);
 	r
+}
+
+/// enigma_dir::read of a path that does not exist (None) or of a single plain file (Some((name, content)))
+fn impl_read_path(file: Option<(&S, &S)>, sc: &mut Scratch) -> Result<Option<Vec<MClass>>, String> {
+	let d = sc.fresh();
+	let target = match file {
+		None => d.join("no-such-entry"),
+		Some((name, content)) => { let t = d.join(text_of(name)); std::fs::write(&t, text_of(content)).expect("write file"); t }
+	};
+	let r = guarded(move || {
+		let ns: Namespaces<2, NsAny> = Namespaces::try_from(["first".to_owned(), "second".to_owned()]).expect("namespaces");
+		match quill::enigma_dir::read(&target, ns) {
+			Ok(q) => { let mut de = vec![]; let m = from_quill(&q, &mut de); assert!(de.is_empty(), "key/info desync after read: {de:?}"); Some(m.classes) }
+			Err(_) => None,
+		}
+	});
+	let _ = std::fs::remove_dir_all(&d);
+	r
+}
+/// everything directly inside the scratch root that is not one of the `d<N>` target directories: must stay empty
+fn strays(sc: &Scratch) -> Vec<String> {
+	let mut out = vec![];
+	if let Ok(rd) = std::fs::read_dir(&sc.root) { for e in rd.flatten() { let n = e.file_name().to_string_lossy().into_owned(); if !(n.starts_with('d') && n[1..].chars().all(|c| c.is_ascii_digit())) { out.push(n); } } }
+	out
+}
+
+// ---------- independent reference reader: the structural decoding of the text ----------
+struct RNode { first: S, fields: Vec<S>, kids: Vec<usize> }
+fn ref_tokenise(text: &S) -> Vec<(usize, S, Vec<S>)> {
+	// BufRead::lines: LF ends a line, a CR directly before it goes too, no final empty line
+	let mut lines: Vec<S> = vec![];
+	let mut cur: S = vec![];
+	for &c in text { if c == 10 { if cur.last() == Some(&13) { cur.pop(); } lines.push(std::mem::take(&mut cur)); } else { cur.push(c); } }
+	if !cur.is_empty() { lines.push(cur); }
+	let comment = s("COMMENT");
+	let mut out = vec![];
+	for l in lines {
+		let ind = l.iter().take_while(|&&c| c == 9).count();
+		let mut rest: &[u32] = &l[ind..];
+		if !rest.starts_with(&comment) {
+			let cut = rest.iter().position(|&c| c == '#' as u32).unwrap_or(rest.len());
+			let (mut a, mut b) = (0, cut);
+			while a < b && uni_ws(rest[a]) { a += 1; }
+			while b > a && uni_ws(rest[b - 1]) { b -= 1; }
+			rest = &rest[a..b];
+		}
+		if rest.is_empty() { continue; }
+		let mut toks: Vec<S> = rest.split(|&c| java_ws(c)).map(|t| t.to_vec()).collect();
+		let first = toks.remove(0);
+		out.push((ind, first, toks));
+	}
+	out
+}
+fn rtag(n: &RNode, t: &str) -> bool { n.first == s(t) }
+fn push_doc(doc: &mut Option<S>, n: &RNode) {
+	let mut text: S = vec![];
+	for (i, f) in n.fields.iter().enumerate() { if i > 0 { text.push(32); } text.extend_from_slice(f); }
+	match doc { Some(d) => { d.push(10); d.extend(text); } None => *doc = Some(text) }
+}
+/// the lines below FIELD / ARG: COMMENT leaves only
+fn ref_doc(nodes: &[RNode], kids: &[usize]) -> Option<Option<S>> {
+	let mut doc = None;
+	for &k in kids { let n = &nodes[k]; if !rtag(n, "COMMENT") || !n.kids.is_empty() { return None; } push_doc(&mut doc, n); }
+	Some(doc)
+}
+fn ref_named(f: &[S]) -> Option<(S, Option<S>, S)> {
+	match f.len() {
+		2 => Some((f[0].clone(), None, f[1].clone())),
+		3 => if is_mod(&f[2]) { Some((f[0].clone(), None, f[1].clone())) } else { Some((f[0].clone(), Some(f[1].clone()), f[2].clone())) },
+		4 => Some((f[0].clone(), Some(f[1].clone()), f[2].clone())),
+		_ => None,
+	}
+}
+fn ref_class(nodes: &[RNode], id: usize, par: Option<(&S, &S)>, nesting: usize, out: &mut Vec<MClass>) -> Option<()> {
+	let n = &nodes[id];
+	if !rtag(n, "CLASS") || nesting > 64 { return None; }
+	let f = &n.fields;
+	let (src0, dst0) = match f.len() { 1 => (f[0].clone(), None), 2 => if is_mod(&f[1]) { (f[0].clone(), None) } else { (f[0].clone(), Some(f[1].clone())) }, 3 => (f[0].clone(), Some(f[1].clone())), _ => return None };
+	let join = |p: &S, x: S| { let mut v = p.clone(); v.push(DOLLAR); v.extend(x); v };
+	let (src, dst) = match par { Some((ps, pd)) => (join(ps, src0), dst0.map(|d| join(pd, d))), None => (src0, dst0) };
+	if !obj_name(&src) || dst.as_ref().is_some_and(|d| !obj_name(d)) { return None; }
+	let pd = dst.clone().unwrap_or_else(|| src.clone());
+	let mut c = MClass { names: vec![Some(src.clone()), dst], doc: None, fields: vec![], methods: vec![] };
+	for &k in &n.kids {
+		let kn = &nodes[k];
+		if rtag(kn, "CLASS") { ref_class(nodes, k, Some((&src, &pd)), nesting + 1, out)?; }
+		else if rtag(kn, "FIELD") {
+			let (a, b, d) = ref_named(&kn.fields)?;
+			if !unq(&a) || b.as_ref().is_some_and(|b| !unq(b)) { return None; }
+			if c.fields.iter().any(|x| x.names[0].as_ref() == Some(&a) && x.desc == d) { return None; }
+			let doc = ref_doc(nodes, &kn.kids)?;
+			c.fields.push(MField { desc: d, names: vec![Some(a), b], doc });
+		} else if rtag(kn, "METHOD") {
+			let (a, b, d) = ref_named(&kn.fields)?;
+			if !meth_name(&a) || b.as_ref().is_some_and(|b| !meth_name(b)) { return None; }
+			if c.methods.iter().any(|x| x.names[0].as_ref() == Some(&a) && x.desc == d) { return None; }
+			let mut me = MMeth { desc: d, names: vec![Some(a), b], doc: None, params: vec![] };
+			for &pk in &kn.kids {
+				let pn = &nodes[pk];
+				if rtag(pn, "ARG") {
+					if pn.fields.len() != 2 { return None; }
+					let idx: u64 = text_of(&pn.fields[0]).parse::<u64>().ok()?;
+					if !unq(&pn.fields[1]) || me.params.iter().any(|x| x.index == idx) { return None; }
+					let doc = ref_doc(nodes, &pn.kids)?;
+					me.params.push(MParam { index: idx, names: vec![None, Some(pn.fields[1].clone())], doc });
+				} else if rtag(pn, "COMMENT") { if !pn.kids.is_empty() { return None; } push_doc(&mut me.doc, pn); }
+				else { return None; }
+			}
+			c.methods.push(me);
+		} else if rtag(kn, "COMMENT") { if !kn.kids.is_empty() { return None; } push_doc(&mut c.doc, kn); }
+		else { return None; }
+	}
+	if out.iter().any(|x| key(x) == src) { return None; }
+	out.push(c);
+	Some(())
+}
+/// what reading `text` into mappings holding `acc` must give: the lines grouped by indentation (a line belongs to the
+/// nearest preceding line indented one step less), one class per CLASS line under the joined names, nested classes first
+fn ref_read(text: &S, acc: &[MClass]) -> Option<Vec<MClass>> {
+	let mut nodes: Vec<RNode> = vec![];
+	let mut roots: Vec<usize> = vec![];
+	let mut path: Vec<usize> = vec![];
+	for (ind, first, fields) in ref_tokenise(text) {
+		if ind > path.len() { return None; }
+		path.truncate(ind);
+		let id = nodes.len();
+		nodes.push(RNode { first, fields, kids: vec![] });
+		match path.last() { Some(&p) => nodes[p].kids.push(id), None => roots.push(id) }
+		path.push(id);
+	}
+	let mut out: Vec<MClass> = acc.to_vec();
+	for r in roots { ref_class(&nodes, r, None, 0, &mut out)?; }
+	Some(out)
+}
+/// reader exactness on the implementation alone: read_into must give exactly the structural decoding (order included)
+fn reader_oracle(r: &mut Report, acc: &[MClass], text: &S, got: &Option<Vec<MClass>>) {
+	let want = ref_read(text, acc);
+	if &want != got {
+		let what = match (&want, got) {
+			(Some(_), None) => "read_into refuses a text whose structural decoding is well-formed",
+			(None, Some(_)) => "read_into accepts a text that has no well-formed structural decoding (indentation, tags, names, duplicates)",
+			_ => "read_into does not return the structural decoding of the text (a class, member, comment or name differs, is lost, merged or re-parented)",
+		};
+		r.violation(what.to_owned(), format!("property C12\nwhat: {what}\nclasses already in the mappings (Gallina): {}\ntext (code points): {}\ntext:\n{}\nexpected (Gallina): {:?}\nread_into gave (Gallina): {:?}\n",
+			g_classes(acc), gstr(text), text_of(text), want.as_ref().map(|w| g_classes(w)), got.as_ref().map(|g| g_classes(g))));
+	}
 }
 
 // ---------- independent reference: what the property says ----------
@@ -387,6 +556,66 @@ const HAND: [&str; 44] = [
 	"CLASS A\n\tFIELD a I\n\t\tCOMMENT f\n\t\tARG 1 x\n", "CLASS a//b\n", "CLASS A [I\n",
 ];
 
+/// round 4: reader exactness — nesting, prefix re-attachment, duplicates spelled in different ways, members between nested classes,
+/// comments interleaved with parameters, tags in the wrong place, lines below leaves, empty / spaced comments, `#` handling
+const HAND2: [&str; 34] = [
+	"CLASS A\n\tCLASS B\nCLASS A$B\n", "CLASS A$B\nCLASS A\n\tCLASS B\n", "CLASS A\n\tCLASS B\n\tCLASS B\n", "CLASS A X\n\tCLASS B Y\n\t\tCLASS C\n\t\t\tCLASS D Z\n",
+	"CLASS A\n\tFIELD a I\n\tCLASS B\n\tFIELD b I\n\tMETHOD m ()V\n\tCLASS C\n\t\tMETHOD n ()V\n\tCOMMENT x\n\tFIELD c I\n",
+	"CLASS A\n\tMETHOD m ()V\n\t\tCOMMENT a\n\t\tARG 0 p\n\t\t\tCOMMENT b\n\t\tCOMMENT c\n\t\tARG 1 q\n\t\t\tCOMMENT d\n\t\t\tCOMMENT e\n",
+	"CLASS A\n\tMETHOD m ()V\n\tMETHOD m ()V\n", "CLASS A\n\tMETHOD m ()V\n\tMETHOD m x ()V\n", "CLASS A\n\tMETHOD m ()V\n\tMETHOD m ()I\n", "CLASS A\n\tMETHOD m ()V\n\t\tARG 1 a\n\t\tARG 01 b\n",
+	"CLASS A\n\tMETHOD m ()V\n\t\tARG 1 a\n\t\tARG +1 b\n", "CLASS A\n\tFOO x\n", "CLASS A\n\tMETHOD m ()V\n\t\tARG 1 a\n\t\t\tFIELD x I\n", "CLASS A\n\tFIELD a I\n\t\t\tCOMMENT deep\n",
+	"CLASS A\n\tCOMMENT\n", "CLASS A\n\tCOMMENT\n\tCOMMENT\n", "CLASS A\n\tCOMMENT  two  spaces \n", "CLASS A\n\tCOMMENT# x\n", "CLASS A\n\tCOMMENT #\n\tCOMMENT a#b # c\n", "CLASS A # trailing\n\tFIELD a I # c\n\t# whole line\n\tFIELD b J\n",
+	"\u{feff}CLASS A\n", "CLASS A\n \tFIELD a I\n", "CLASS A\n\t FIELD a I\n", "CLASS A B\n\tCLASS ACC:x\n", "CLASS A B\n\tCLASS C ACC:pub\n\t\tCLASS D E\n", "CLASS A B\n\tCLASS C D ACC:pub\n\t\tCLASS E F G\n",
+	"CLASS A\n\tCLASS B\n\t\tFIELD x I\n\tFIELD x I\nCLASS C\n\tFIELD x I\n", "CLASS A\n\n\n\tFIELD a I\n\n", "CLASS A\n\tFIELD a I\nFIELD b I\n", "CLASS A\n\tMETHOD m ()V\n\t\tCLASS B\n",
+	"CLASS A\n\tCLASS B\n\t\tCLASS C\n\tCLASS B$C\n", "CLASS p/A q/B\n\tCLASS 1 2\n\t\tCLASS 1 2\n", "CLASS A\n\tFIELD a I\n\t\tCOMMENT x\n\t\t\tCOMMENT y\n", "CLASS A\n\tCOMMENT x\n\tCLASS B\n\tCOMMENT y\n",
+];
+
+/// comment shapes for the deterministic comment stream (every shape at every place a comment can stand)
+const DOCS2: [&str; 26] = ["", "\n", "\n\n", "a\n", "a\n\n", "\na", "a\n\nb\n", " ", "  ", " \n ", "trailing ", " leading", "#", "# x\n# y", "a # b", "COMMENT x", "COMMENT", "CLASS A B",
+	"x\u{85}y", "\u{85}", "x\u{2028}y", "\u{a0}", "\u{3000}end\u{3000}", "many   spaces   inside", "\u{1F600}\n\u{1F600}", "ACC:x"];
+fn doc_set(doc: &str, place: usize) -> MMappings {
+	let other = Some(s("other"));
+	let d = Some(s(doc));
+	let pick = |k: usize| if k == place { d.clone() } else if (k + place) % 2 == 0 { other.clone() } else { None };
+	mm(vec![MClass { names: vec![Some(s("p/Doc")), Some(s("q/Doc"))], doc: pick(0),
+		fields: vec![MField { desc: s("I"), names: vec![Some(s("f")), Some(s("g"))], doc: pick(1) }, MField { desc: s("J"), names: vec![Some(s("f")), None], doc: pick(4) }],
+		methods: vec![MMeth { desc: s("(II)V"), names: vec![Some(s("m")), Some(s("n"))], doc: pick(2), params: vec![MParam { index: 0, names: vec![None, Some(s("a"))], doc: pick(3) }, MParam { index: 1, names: vec![None, Some(s("b"))], doc: pick(5) }] }] },
+		MClass { names: vec![Some(s("p/Doc$In")), Some(s("q/Doc$In"))], doc: pick(6), fields: vec![], methods: vec![] }])
+}
+
+/// chains with a missing link: the direct outer class of some class is absent while a further-out class is present
+fn orphan_chain_sets() -> Vec<MMappings> {
+	let c = |src: &str, dst: Option<&str>, doc: Option<&str>, members: bool| MClass { names: vec![Some(s(src)), dst.map(s)], doc: doc.map(s),
+		fields: if members { vec![MField { desc: s("I"), names: vec![Some(s("f")), Some(s("g"))], doc: Some(s("fd\n")) }] } else { vec![] },
+		methods: if members { vec![MMeth { desc: s("(I)V"), names: vec![Some(s("<init>")), Some(s("<init>"))], doc: None, params: vec![MParam { index: 1, names: vec![None, Some(s("p"))], doc: Some(s("")) }] }] } else { vec![] } };
+	vec![
+		mm(vec![c("A", Some("X"), None, false), c("A$B$C", Some("far/Away"), Some("orphan below a present class"), true)]),
+		mm(vec![c("A$B$C", Some("far/Away"), None, true), c("A", Some("X"), None, true)]),
+		mm(vec![c("A$B$C", None, None, false)]),
+		mm(vec![c("A", None, None, false), c("A$B$C", None, Some(""), false), c("A$B$C$D", None, None, true)]),
+		mm(vec![c("A", Some("X"), None, false), c("A$B$C", Some("Y$Z"), None, false), c("A$B$C$D", Some("Y$Z$W"), None, true), c("A$B$C$D$E", None, Some("e\n"), false)]),
+		mm(vec![c("A", Some("X"), None, false), c("A$B", Some("X$B"), None, false), c("A$B$C$D", Some("Q"), None, true), c("A$B$C$D$E$F", Some("R$S"), None, false), c("A$B$C$D$E$F$G", Some("R$S$T"), None, false)]),
+		mm(vec![c("p/q/A", Some("r/A"), None, true), c("p/q/A$1$2", None, None, true), c("p/q/A$1$2$3", None, None, false), c("p/q/A$9", Some("r/A$9"), None, false)]),
+		mm(vec![c("A$B$C", Some("K"), None, false), c("A$B$D", Some("L"), None, false), c("A", Some("M"), None, false), c("A$E", None, None, false)]),
+		// the same file name would be used twice: refused (not silently dropped)
+		mm(vec![c("A", Some("X"), None, false), c("A$B$C", Some("X"), None, false)]),
+	]
+}
+
+/// file names that are special to the file system or to Path: `.`/`..`/absolute (must be refused), NUL and over-long components
+/// (the file system refuses them), multi-byte names around the 255-byte limit, deep directories
+fn special_dir_names(escape: &str) -> Vec<S> {
+	let rep = |c: char, n: usize| -> String { std::iter::repeat(c).take(n).collect() };
+	let mut v: Vec<String> = vec!["a.b".into(), "..".into(), ".".into(), "../x".into(), "x/../../y".into(), "x/./y".into(), ".hidden".into(), "trailing.".into(), "/abs/X".into(), format!("{escape}/X"), "/".into(),
+		"a\0b".into(), "d/\0".into(), "\0".into(),
+		rep('x', 246), rep('x', 247), rep('x', 248), rep('x', 255), rep('x', 300),
+		format!("{}/x", rep('d', 255)), format!("{}/x", rep('d', 256)), format!("{}/{}", rep('d', 255), rep('f', 247)), format!("{}/{}", rep('d', 255), rep('f', 248)),
+		format!("{}x", rep('\u{e9}', 123)), rep('\u{e9}', 124), format!("{}xyz", rep('\u{1F600}', 61)), rep('\u{1F600}', 62), format!("{}x", rep('\u{20AC}', 82)), format!("{}xx", rep('\u{20AC}', 82)),
+		(0..12).map(|i| format!("dir{i}")).collect::<Vec<_>>().join("/"), "back\\slash".into(), "sp ace".into(), "COM1".into(), "a:b".into(), "star*".into(), "q?".into(), "UPPER".into(), "upper".into()];
+	v.push(format!("{}/{}/{}", rep('a', 255), rep('b', 255), rep('c', 247)));
+	v.into_iter().map(|x| cps_str(&x)).collect()
+}
+
 fn gen_dir_files(rng: &mut Rng) -> Vec<(S, S)> {
 	// directory names never contain '.', file names always do: no file/directory clash
 	const DIRS: [&str; 5] = ["a", "b", "a-b", "net", "A"];
@@ -475,6 +704,7 @@ fn strip_hash_lines(t: &S) -> S {
 
 /// Everything the property states, on the implementation alone, for a mapping set inside the hypotheses.
 fn oracle(r: &mut Report, rng: &mut Rng, m: &MMappings, sc: &mut Scratch, with_dir: bool) {
+	crumb(&replay("the harness process died (stack overflow, abort or timeout) while this mapping set was written / read back", m, ""));
 	let want = mm(norm(m).classes);
 	// round trip through one stream
 	let text = match impl_write_all(m) {
@@ -557,7 +787,10 @@ fn oracle(r: &mut Report, rng: &mut Rng, m: &MMappings, sc: &mut Scratch, with_d
 }
 
 /// the correspondence case of one mapping set (any stream): the whole public API on it
-fn cases(r: &mut Report, rng: &mut Rng, stream: &str, m: &MMappings, sc: &mut Scratch, with_dir: bool) {
+fn cases(r: &mut Report, rng: &mut Rng, stream: &str, m: &MMappings, sc: &mut Scratch, with_dir: bool) { cases_x(r, rng, stream, m, sc, with_dir, false) }
+/// `any_name`: also hand names to enigma_dir::write that are special to the file system (the model describes NUL and over-long components)
+fn cases_x(r: &mut Report, rng: &mut Rng, stream: &str, m: &MMappings, sc: &mut Scratch, with_dir: bool, any_name: bool) {
+	crumb(&replay("the harness process died (stack overflow, abort or timeout) while this mapping set was written / read back", m, ""));
 	let gm = g_classes(&m.classes);
 	let wall = match impl_write_all(m) {
 		Err(p) if p.starts_with("not buildable") => { r.count("not_buildable"); return; }
@@ -589,7 +822,7 @@ fn cases(r: &mut Report, rng: &mut Rng, stream: &str, m: &MMappings, sc: &mut Sc
 	if with_dir {
 		// keep the file system out of what the model does not describe: plain path characters only
 		let plain = m.classes.iter().filter(|c| parent_in(m, c).is_none()).map(file_name).all(|n| scalar(&n) && obj_name(&n) && n.iter().all(|&c| c > 32 && c != 127 && c != '\\' as u32));
-		if plain {
+		if plain || any_name {
 			match impl_write_dir(m, sc) {
 				Ok(fs) => {
 					r.count(if fs.is_some() { "write_dir_ok" } else { "write_dir_err" });
@@ -617,7 +850,12 @@ post-processed so that they satisfy enigma_ok (nested targets = target-or-source
 (stream and directory round trip against an independent normaliser, one CLASS line per class with depth = source nesting depth, every class in exactly one write_one file, write_all = concatenation of the sorted files apart from `#` lines, 2+1 shuffled insertion orders; the normaliser drops nothing but an `<init>` target) \
 and yields one CSet case (write_all, read_into of the written text, write_one for 1-3 names, every 4th set enigma_dir::write and ::read); the complete special-method table as 4 fixed sets (stream `special`, full oracle); {n_viol} sets for each of {} hypothesis-violating kinds (correspondence only; for `param-src-name` the documented loss is observed and counted); \
 a table-driven reader stream `unicode-ws`: every code point char::is_whitespace accepts (asked for all 0x110000) and 26 that it does not, at the start, end and inside of CLASS/FIELD/ARG/COMMENT lines (14 shapes each); {} hand-written reader inputs and {n_mut} mutations of written texts (malformed stream); \
-directory reads of generated file trees (non-mapping files, nested directories, colliding classes). Non-trivial = at least one class; distinct by canonical Gallina text.", VIOLATIONS.len(), HAND.len());
+directory reads of generated file trees (non-mapping files, nested directories, colliding classes). \
+Round 4: read results are compared in exact IndexMap order; an independent reference reader written in the harness (tokenise, group lines by indentation, decode: one class per CLASS line under the joined names, nested first) is the oracle for every reader input \
+(hand, {} more hand-written texts on nesting / duplicates spelled differently / tags in wrong places / comment and `#` shapes, unicode-ws, mutated, read-into) — a difference is reported with the text; streams `hand-struct` / `mutated-struct` compare with the structural decoder read_struct; \
+`orphan-chain`: 9 sets where the direct outer class is absent and a further-out one present (full oracle + the file of such a class starts with its CLASS line carrying the full names); `comments`: {} comment shapes (empty, line breaks only, trailing line break, NEL / LINE SEPARATOR / NBSP, `#`, keyword-like) at 7 places; \
+`read-into`: read_into on mappings already holding 1-3 classes (same classes again, hand texts, fresh classes, mutated texts; existing classes must stay a prefix); `bytes`: 12 ill-formed and 8 well-formed multi-byte UTF-8 sequences inserted into 4 texts (ill-formed => Err, never Ok / panic); \
+`path`: enigma_dir::read of a missing path and of single plain files; `dir-special`: enigma_dir::write with file names `.`, `..`, `../x`, `x/../../y`, absolute, NUL, components of 246..300 bytes (1-, 2-, 3-, 4-byte characters), deep directories — nothing may appear outside the target directory; `dir-case`: names differing only in case.", VIOLATIONS.len(), HAND.len(), HAND2.len(), DOCS2.len());
 
 	// 1. inside the hypotheses
 	let mut texts: Vec<S> = vec![];
@@ -697,11 +935,14 @@ directory reads of generated file trees (non-mapping files, nested directories, 
 		}
 	}
 	// 3. reader on hand-written and mutated texts
-	for h in HAND {
+	for h in HAND.iter().chain(HAND2.iter()) {
 		let t = s(h);
 		r.eval(&gstr(&t), !t.is_empty());
+		crumb(&format!("property C12\nthe harness process died while read_into was reading this text:\n{h}\n"));
 		match impl_read(&t) {
-			Ok(b) => { r.count(if b.is_some() { "hand_ok" } else { "hand_err" }); r.case("hand", compact(&format!("CRead {} {}", gstr(&t), gres(b.map(|b| g_classes(&b)))))); }
+			Ok(b) => { r.count(if b.is_some() { "hand_ok" } else { "hand_err" }); reader_oracle(&mut r, &[], &t, &b);
+				r.case("hand", compact(&format!("CRead {} {}", gstr(&t), gres(b.as_ref().map(|b| g_classes(b))))));
+				r.case("hand-struct", compact(&format!("CReadS {} {}", gstr(&t), gres(b.map(|b| g_classes(&b)))))); }
 			Err(p) => r.violation(format!("read_into panicked: {p}"), format!("property C12\nread_into panicked: {p}\ntext:\n{h}\n")),
 		}
 	}
@@ -725,7 +966,7 @@ directory reads of generated file trees (non-mapping files, nested directories, 
 			for part in b.split("{w}").enumerate() { if part.0 > 0 { t.push(w); } t.extend(s(part.1)); }
 			r.eval(&gstr(&t), true);
 			match impl_read(&t) {
-				Ok(b) => { r.count(if b.is_some() { "ws_ok" } else { "ws_err" }); r.case("unicode-ws", compact(&format!("CRead {} {}", gstr(&t), gres(b.map(|b| g_classes(&b)))))); }
+				Ok(b) => { r.count(if b.is_some() { "ws_ok" } else { "ws_err" }); reader_oracle(&mut r, &[], &t, &b); r.case("unicode-ws", compact(&format!("CRead {} {}", gstr(&t), gres(b.map(|b| g_classes(&b)))))); }
 				Err(p) => r.violation(format!("read_into panicked: {p}"), format!("property C12\nread_into panicked: {p}\ntext (code points): {}\n", gstr(&t))),
 			}
 		}
@@ -739,10 +980,142 @@ directory reads of generated file trees (non-mapping files, nested directories, 
 		}
 		if t.len() > 4000 { continue; }
 		r.eval(&gstr(&t), true);
+		crumb(&format!("property C12\nthe harness process died while read_into was reading this text (code points): {}\n", gstr(&t)));
 		match impl_read(&t) {
-			Ok(b) => { r.count(if b.is_some() { "mutated_ok" } else { "mutated_err" }); r.case("mutated", compact(&format!("CRead {} {}", gstr(&t), gres(b.map(|b| g_classes(&b)))))); }
+			Ok(b) => { r.count(if b.is_some() { "mutated_ok" } else { "mutated_err" }); reader_oracle(&mut r, &[], &t, &b);
+				let kind = if i % 2 == 0 { "CRead" } else { "CReadS" };
+				r.case(if i % 2 == 0 { "mutated" } else { "mutated-struct" }, compact(&format!("{kind} {} {}", gstr(&t), gres(b.map(|b| g_classes(&b)))))); }
 			Err(p) => r.violation(format!("read_into panicked: {p}"), format!("property C12\nread_into panicked: {p}\ntext (code points): {}\n", gstr(&t))),
 		}
+	}
+	// 3b. orphan chains: the direct outer class is absent, a further-out one is present (full oracle, stream and directory)
+	for m in orphan_chain_sets() {
+		r.eval(&g_classes(&m.canon().classes), true);
+		match enigma_ok(&m) { Ok(()) => { r.count("orphan_chain_inside_hypotheses"); oracle(&mut r, &mut rng, &m, &mut sc, true); } Err(_) => r.count("orphan_chain_outside") }
+		// what the placement theorems say, on the implementation: a class whose direct outer class is absent heads its own file with its full names
+		if enigma_ok(&m).is_ok() {
+			for c in m.classes.iter().filter(|c| parent_in(&m, c).is_none()) {
+				match impl_write_one(&m, &text_of(&file_name(c))) {
+					Ok(Some(t)) => {
+						let mut head = s("CLASS "); head.extend(key(c)); if let Some(d) = dst(c) { head.push(32); head.extend(d); } head.push(10);
+						if !t.starts_with(&head) { r.violation(format!("the file of the parent-free class {:?} does not start with its CLASS line carrying its full names", show(&key(c))), replay("orphan inner class not written at the start of its own file with its full names", &m, &format!("file text:\n{}\n", text_of(&t)))); }
+					}
+					other => r.violation(format!("write_one fails for the parent-free class {:?}: {:?}", show(&key(c)), other.err()), replay("write_one failed for a parent-free class", &m, "")),
+				}
+			}
+		}
+		cases(&mut r, &mut rng, "orphan-chain", &m, &mut sc, true);
+	}
+	// 3c. every comment shape at every place a comment can stand (class, field, method, parameter, nested class)
+	for (di, d) in DOCS2.iter().enumerate() {
+		for place in 0..7 {
+			if !ctx.thorough && (di + place) % 2 == 1 { continue; }
+			let m = doc_set(d, place);
+			r.eval(&g_classes(&m.canon().classes), true);
+			match enigma_ok(&m) { Ok(()) => { r.count("comments_inside_hypotheses"); oracle(&mut r, &mut rng, &m, &mut sc, place == 0); } Err(_) => r.count("comments_outside") }
+			cases(&mut r, &mut rng, "comments", &m, &mut sc, false);
+		}
+	}
+	// 3d. read_into on mappings that already hold classes: kept as they are, new ones appended, a key that is already there refused
+	for i in 0..(if ctx.thorough { 300 } else { 40 }) {
+		let mut acc = gen_valid(&mut rng);
+		for _ in 0..10 { if !acc.classes.is_empty() { break; } acc = gen_valid(&mut rng); }
+		acc.classes.truncate(3);
+		if to_quill::<2, NsAny>(&acc).is_err() { continue; }
+		let t: S = match i % 4 {
+			0 => match impl_write_all(&acc) { Ok(Some(t)) => t, _ => continue },            // the same classes again: duplicates
+			1 => s(HAND2[i / 4 % HAND2.len()]),
+			2 => s("CLASS zz/New zz/Neu\n\tFIELD a b I\n\tCLASS In\n"),
+			_ => { if texts.is_empty() { continue; } let mut t = rng.pick(&texts[..]).clone(); mutate_text(&mut rng, &mut t); if t.len() > 2500 { continue; } t }
+		};
+		r.eval(&format!("{} {}", g_classes(&acc.classes), gstr(&t)), true);
+		crumb(&format!("property C12\nthe harness process died while read_into was reading this text into non-empty mappings (code points): {}\n", gstr(&t)));
+		match impl_read_into(&acc, &t) {
+			Ok(b) => { r.count(if b.is_some() { "read_into_ok" } else { "read_into_err" }); reader_oracle(&mut r, &acc.classes, &t, &b);
+				if let Some(b) = &b { if !b.starts_with(&acc.classes) { r.violation("read_into changed or reordered classes that were already in the mappings".into(), format!("property C12\nbefore (Gallina): {}\ntext (code points): {}\nafter (Gallina): {}\n", g_classes(&acc.classes), gstr(&t), g_classes(b))); } }
+				r.case("read-into", compact(&format!("CReadInto {} {} {}", g_classes(&acc.classes), gstr(&t), gres(b.map(|b| g_classes(&b)))))); }
+			Err(p) => r.violation(format!("read_into panicked: {p}"), format!("property C12\nread_into panicked: {p}\ntext (code points): {}\n", gstr(&t))),
+		}
+	}
+	// 3e. bytes that are not UTF-8 (BufRead::lines yields an error for that line): an error of the read, never a panic
+	{
+		const BAD: [&[u8]; 12] = [&[0xFF], &[0xC0, 0x80], &[0xC1, 0xBF], &[0xED, 0xA0, 0x80], &[0xED, 0xBF, 0xBF], &[0xF4, 0x90, 0x80, 0x80], &[0xF5, 0x80, 0x80, 0x80], &[0xE2, 0x82], &[0x80], &[0xF0, 0x9F, 0x98], &[0xE0, 0x9F, 0xBF], &[0xF0, 0x8F, 0xBF, 0xBF]];
+		const GOOD: [&[u8]; 8] = [&[0xC3, 0xA9], &[0xE2, 0x82, 0xAC], &[0xF0, 0x9F, 0x98, 0x80], &[0xC2, 0x80], &[0xDF, 0xBF], &[0xE0, 0xA0, 0x80], &[0xEF, 0xBF, 0xBF], &[0xF4, 0x8F, 0xBF, 0xBF]];
+		let bases: [&str; 4] = ["CLASS A B\n\tFIELD a b I\n\t\tCOMMENT c\n", "CLASS A\n", "CLASS A B\n\tMETHOD m n ()V\n\t\tARG 1 p\n\t\t\tCOMMENT x y\n\tCOMMENT z\n", ""];
+		for (bi, base) in bases.iter().enumerate() {
+			for (k, ins) in BAD.iter().map(|b| (false, *b)).chain(GOOD.iter().map(|g| (true, *g))).enumerate() {
+				let b0 = base.as_bytes();
+				let positions: Vec<usize> = if ctx.thorough { (0..=b0.len()).collect() } else { vec![0, b0.len() / 3, (b0.len() * 2) / 3 + (k + bi) % 3, b0.len()] };
+				for at in positions {
+					let at = at.min(b0.len());
+					let mut bytes = b0[..at].to_vec(); bytes.extend_from_slice(ins.1); bytes.extend_from_slice(&b0[at..]);
+					let g = glist(bytes.iter().map(|b| b.to_string()));
+					r.eval(&g, true);
+					crumb(&format!("property C12\nthe harness process died while read_into was reading these bytes: {g}\n"));
+					match impl_read_bytes(&bytes) {
+						Ok(b) => {
+							r.count(if b.is_some() { "bytes_ok" } else { "bytes_err" });
+							if std::str::from_utf8(&bytes).is_err() { r.count("bytes_not_utf8"); if b.is_some() { r.violation("read_into accepts input that is not UTF-8".into(), format!("property C12\nread_into returned Ok on bytes that are not UTF-8: {g}\n")); } }
+							r.case("bytes", compact(&format!("CReadBytes {g} {}", gres(b.map(|b| g_classes(&b))))));
+						}
+						Err(p) => r.violation(format!("read_into panicked: {p}"), format!("property C12\nread_into panicked: {p}\nbytes: {g}\n")),
+					}
+				}
+			}
+		}
+	}
+	// 3f. enigma_dir::read of a path that does not exist, and of a single plain file
+	{
+		match impl_read_path(None, &mut sc) {
+			Ok(b) => { r.count(if b.is_some() { "path_missing_ok" } else { "path_missing_err" }); r.eval("NoSuchPath", true); r.case("path", format!("CReadPath NoSuchPath {}", gres(b.map(|b| g_classes(&b))))); }
+			Err(p) => r.violation(format!("enigma_dir::read panicked: {p}"), format!("property C12\nenigma_dir::read panicked on a missing path: {p}\n")),
+		}
+		for (name, content) in [("one.mapping", "CLASS A B\n\tFIELD a b I\n"), ("one.txt", "CLASS A B\n"), ("one.mapping", "garbage\n"), ("mapping", "CLASS A\n"), ("x.y.mapping", "CLASS A\n\tCLASS B\n"), ("one.MAPPING", "CLASS A\n"), ("one.mapping", "")] {
+			let (n, c) = (s(name), s(content));
+			r.eval(&format!("PlainFile {} {}", gstr(&n), gstr(&c)), true);
+			match impl_read_path(Some((&n, &c)), &mut sc) {
+				Ok(b) => { r.count(if b.is_some() { "path_file_ok" } else { "path_file_err" }); r.case("path", compact(&format!("CReadPath (PlainFile {} {}) {}", gstr(&n), gstr(&c), gres(b.map(|b| g_classes(&b)))))); }
+				Err(p) => r.violation(format!("enigma_dir::read panicked: {p}"), format!("property C12\nenigma_dir::read panicked on the plain file {name:?}: {p}\n")),
+			}
+		}
+	}
+	// 3g. file names that are special to the file system / to Path (built with the unchecked constructors where the name
+	// types would refuse them): `.`, `..`, absolute must be refused and NOTHING may appear outside the target directory;
+	// NUL and components over 255 bytes are refused by the file system (an error, no silent loss)
+	{
+		let escape = std::env::temp_dir().join(format!("fbh-c12-escape-{}-{}", std::process::id(), ctx.seed));
+		let escape_s = escape.to_string_lossy().into_owned();
+		for (i, name) in special_dir_names(&escape_s).into_iter().enumerate() {
+			let mut classes = vec![MClass { names: vec![Some(s(&format!("src/S{i}"))), Some(name.clone())], doc: None, fields: vec![MField { desc: s("I"), names: vec![Some(s("f")), None], doc: None }], methods: vec![] }];
+			if i % 2 == 0 { classes.push(MClass { names: vec![Some(s("ok/Other")), Some(s("ok/Target"))], doc: None, fields: vec![], methods: vec![] }); }
+			let m = mm(classes);
+			r.eval(&g_classes(&m.classes), true);
+			crumb(&replay("the harness process died while enigma_dir::write was writing this mapping set", &m, ""));
+			match impl_write_dir(&m, &mut sc) {
+				Ok(fs) => {
+					r.count(if fs.is_some() { "dir_special_ok" } else { "dir_special_err" });
+					let st = strays(&sc);
+					if !st.is_empty() || escape.exists() {
+						r.violation("enigma_dir::write created something outside the target directory".into(), replay("a file or directory appeared outside the directory enigma_dir::write was given", &m, &format!("strays next to the target directory: {st:?}; {escape_s} exists: {}\n", escape.exists())));
+						for x in &st { let p = sc.root.join(x); let _ = std::fs::remove_file(&p); let _ = std::fs::remove_dir_all(&p); }
+						let _ = std::fs::remove_dir_all(&escape);
+					}
+					if let Some(fs) = &fs { if fs.iter().any(|(p, _)| { let p = text_of(p); p.starts_with('/') || p.split('/').any(|c| c == ".." || c == ".") }) { r.violation("enigma_dir::write created a path with a `.`/`..` component".into(), replay("path with dot components", &m, &format!("files: {}\n", g_files(fs)))); } }
+					// names whose path form differs from the name (empty components) are not in this list, so the files found are comparable
+					r.case("dir-special", compact(&format!("CWriteDir {} {}", g_classes(&m.classes), gres(fs.as_ref().map(|f| g_files(f))))));
+					// inside the hypotheses (NUL-free, short enough) the whole API as usual
+					if enigma_ok(&m).is_ok() && fs.is_some() { oracle(&mut r, &mut rng, &m, &mut sc, true); }
+				}
+				Err(p) => r.violation(format!("enigma_dir::write panicked: {p}"), replay("enigma_dir::write panicked", &m, &p)),
+			}
+		}
+	}
+	// 3h. file names that differ only in case: three different files on a case-sensitive file system (the only kind modelled)
+	{
+		let m = mm(["Coll/Name", "coll/name", "COLL/NAME", "Coll/name"].iter().enumerate().map(|(i, t)| MClass { names: vec![Some(s(&format!("k/C{i}"))), Some(s(t))], doc: Some(s(t)), fields: vec![], methods: vec![] }).collect());
+		r.eval(&g_classes(&m.classes), true);
+		if enigma_ok(&m).is_ok() { r.count("case_collision_inside_hypotheses"); oracle(&mut r, &mut rng, &m, &mut sc, true); }
+		cases(&mut r, &mut rng, "dir-case", &m, &mut sc, true);
 	}
 	// 4. directory reads of arbitrary trees
 	for _ in 0..(if ctx.thorough { 400 } else { 60 }) {
